@@ -9,6 +9,7 @@ import (
 
 	"github.com/bilibili/gengine/builder"
 	"github.com/bilibili/gengine/context"
+	"github.com/bilibili/gengine/engine"
 	"verifharness/fw"
 	"verifharness/gen"
 	"verifharness/trace"
@@ -583,5 +584,84 @@ func RunC03(k *fw.Case) {
 		RunC03Matrix(k, k.Index)
 		return
 	}
+	if k.Index%5 == 0 {
+		RunC03Reinject(k)
+		return
+	}
 	RunC03Random(k)
+}
+
+// ---- C03 (c): a name always refers to the object that is injected NOW ----
+
+type reBox struct{ V int64 }
+
+func (b *reBox) Get() int64 { return b.V }
+
+type reHolder struct{ In *reBox }
+
+// RunC03Reinject: inject, call/read, remove, call/read (must fail), inject another object
+// under the same name (with and without removing the old one first).
+func RunC03Reinject(k *fw.Case) {
+	r := k.Rng
+	dc := context.NewDataContext()
+	rb := builder.NewRuleBuilder(dc)
+	text := `
+rule "m" salience 4 begin return Obj.Get() end
+rule "f" salience 3 begin return Obj.V end
+rule "fn" salience 2 begin return getv() end
+rule "t" salience 1 begin return Holder.In.Get() end
+rule "w" salience 0 begin Obj.V = Obj.V + 1000 return Obj.V end
+`
+	if err := trace.CompileLocked(func() error { return rb.BuildRuleFromString(text) }); err != nil {
+		k.Inconclusive("reinjection text does not compile: " + err.Error())
+		return
+	}
+	eng := engine.NewGengine()
+	step := 0
+	check := func(label string, want map[string]int64) {
+		step++
+		var pan interface{}
+		func() {
+			defer func() { pan = recover() }()
+			eng.Execute(rb, true)
+		}()
+		res, _ := eng.GetRulesResultMap()
+		k.Eval(1)
+		k.Count("reinjection_steps", 1)
+		if pan != nil {
+			k.Violate("reinject/panic", fmt.Sprintf("step %d (%s): Execute panicked: %v", step, label, pan), nil)
+			return
+		}
+		for name, w := range want {
+			got, ok := res[name]
+			if !ok || got != interface{}(w) {
+				k.Violate("reinject/"+label, fmt.Sprintf("step %d (%s): rule %q returned %v (present=%v), the object injected now gives %d", step, label, name, got, ok, w), map[string]interface{}{"rule_text": text, "result": fmt.Sprint(res)})
+				return
+			}
+		}
+		for name, got := range res {
+			if _, ok := want[name]; !ok {
+				k.Violate("reinject/"+label, fmt.Sprintf("step %d (%s): rule %q returned %v although the name it uses is not injected any more", step, label, name, got), map[string]interface{}{"rule_text": text, "result": fmt.Sprint(res)})
+				return
+			}
+		}
+		k.Distinct("reinject", label, len(want))
+	}
+	base := int64(1 + r.Intn(50))
+	inject := func(v int64) {
+		dc.Add("Obj", &reBox{V: v})
+		vv := v * 10
+		dc.Add("getv", func() int64 { return vv })
+		dc.Add("Holder", &reHolder{In: &reBox{V: v * 100}})
+	}
+	inject(base)
+	check("first-injection", map[string]int64{"m": base, "f": base, "fn": base * 10, "t": base * 100, "w": base + 1000})
+	dc.Del("Obj", "getv", "Holder")
+	check("after-removal", map[string]int64{})
+	inject(base + 1)
+	check("other-object-after-removal", map[string]int64{"m": base + 1, "f": base + 1, "fn": (base + 1) * 10, "t": (base + 1) * 100, "w": base + 1001})
+	inject(base + 2) // overwrite without removing first
+	check("overwritten", map[string]int64{"m": base + 2, "f": base + 2, "fn": (base + 2) * 10, "t": (base + 2) * 100, "w": base + 1002})
+	dc.Del("Obj")
+	check("partly-removed", map[string]int64{"fn": (base + 2) * 10, "t": (base + 2) * 100})
 }
